@@ -34,6 +34,11 @@ pub(super) fn parse_number(s: &str) -> Result<Number, ParseError> {
         "A" => Ok(Number::AlternateBases),
         "R" => Ok(Number::ReferenceAlternateBases),
         "G" => Ok(Number::Samples),
+        "LA" => Ok(Number::LocalAlternateBases),
+        "LR" => Ok(Number::LocalReferenceAlternateBases),
+        "LG" => Ok(Number::LocalSamples),
+        "P" => Ok(Number::Ploidy),
+        "M" => Ok(Number::BaseModifications),
         "." => Ok(Number::Unknown),
         _ => s.parse().map(Number::Count).map_err(ParseError::Invalid),
     }
@@ -49,6 +54,14 @@ mod tests {
         assert_eq!(parse_number("A"), Ok(Number::AlternateBases));
         assert_eq!(parse_number("R"), Ok(Number::ReferenceAlternateBases));
         assert_eq!(parse_number("G"), Ok(Number::Samples));
+        assert_eq!(parse_number("LA"), Ok(Number::LocalAlternateBases));
+        assert_eq!(
+            parse_number("LR"),
+            Ok(Number::LocalReferenceAlternateBases)
+        );
+        assert_eq!(parse_number("LG"), Ok(Number::LocalSamples));
+        assert_eq!(parse_number("P"), Ok(Number::Ploidy));
+        assert_eq!(parse_number("M"), Ok(Number::BaseModifications));
         assert_eq!(parse_number("."), Ok(Number::Unknown));
 
         assert_eq!(parse_number(""), Err(ParseError::Empty));
